@@ -76,6 +76,7 @@ type Source struct {
 	Calls         int
 	CallsAfterEnd int
 	Yield         func()
+	ZeroNil       func(call int) bool // calls that return (0, nil) although the buffer is not empty
 }
 
 func (s *Source) fault() error {
@@ -93,6 +94,9 @@ func (s *Source) Read(p []byte) (int, error) {
 		s.Yield()
 	}
 	if len(p) == 0 {
+		return 0, nil
+	}
+	if s.ZeroNil != nil && s.ZeroNil(s.Calls) {
 		return 0, nil
 	}
 	limit := len(s.Data)
